@@ -59,6 +59,8 @@ def reconcile(req, impl, model):
         model = "cerr"
     if model.startswith("synerr"):
         model = "synerr"
+    if model.startswith("raise TypeError") and impl.startswith("err TypeError"):
+        impl = model = "raise TypeError"
     try:
         if impl.startswith("ok ") and len(impl) > 3:
             impl = "ok " + canon(impl[3:])
@@ -210,7 +212,7 @@ def main():
         all_rows += rows
     if not quick:
         # known-bad constructs re-enabled in the generator: everything that fails must be a known finding
-        a = dict(n=60, seed=c.seed, degrade=1, switches="+default.list.nonString,+default.emptyList,+default.struct.enumField")
+        a = dict(n=60, seed=c.seed, switches="+default.list.nonString,+default.emptyList,+default.struct.enumField")
         rows = harness(hb, "c10-rows", tier=c.tier, timeout=7200, **a)
         run_rows(c, hb, "c10-rows-knownbad", rows, **a)
         census += fits_census(c, rows)
